@@ -3,6 +3,7 @@ import GormModel.Model.Tx
 open Lean
 namespace Gorm.Drv
 open Gorm.Tx
+namespace HC04
 
 partial def parseProg (j : Json) : Option Prog := do
   let a ← jArr? j
@@ -48,6 +49,8 @@ def parseCfg (j : Json) : Option Cfg := do
   let g (k : String) : Option Bool := (j.getObjVal? k).toOption >>= jBool?
   some { prep := ← g "prep", dis := ← g "dis", skip := ← g "skip" }
 
+end HC04
+open HC04 in
 /-- ["tx.run", cfg, [fault call numbers], [initial ids], body, allowRb] -> observation of the model run
     ["tx.spec", cfg, mask, initial, body] -> the functional reference -/
 def handleC04 (op : String) (args : Array Json) : Option Json := do
